@@ -332,7 +332,7 @@ def _histories(ctx, fn):
 # instruction level ---------------------------------------------------------
 def boundary_ints(maxbits):
     vals = {0, 1, -1, 2, -2, 3, -3, 127, 128, -128, -129, 255, 256, -255, -256, -257}
-    for k in (15, 16, 31, 32, 53, 54, 63, 64, 127, 128, 255, 256, 1023, 1024, 4095, maxbits - 9,
+    for k in (15, 16, 31, 32, 53, 54, 55, 56, 62, 63, 64, 127, 128, 255, 256, 1023, 1024, 4094, 4095, 4096, 4097, maxbits - 9,
               maxbits - 8, maxbits - 2, maxbits - 1):
         for d in (-1, 0, 1):
             v = (1 << k) + d
@@ -381,6 +381,11 @@ def _instr(ctx, a):
             # the tape-operand forms: one unsigned length byte, then the signed divisor (up to 255 bytes)
             forms.append(('DIV_INT', push(ea) + b'\x11' + bytes([len(eb)]) + eb, OPS['DIV_INTS'][1]))
             forms.append(('MOD_INT', push(ea) + b'\x13' + bytes([len(eb)]) + eb, OPS['MOD_INTS'][1]))
+        if len(enc_ref(a * b)) > MAX_ITEM:
+            # only the result has to fit: an oversize intermediate product times zero is zero (both operand orders)
+            zero = lambda x, y: [0]
+            forms.append(('MULT_INTS', push(b'\x00') + push(eb) + push(ea) + b'\x10\x03', zero))
+            forms.append(('MULT_INTS', push(eb) + push(ea) + push(b'\x00') + b'\x10\x03', zero))
         for name, script, ref in forms:
             want = ref(a, b)
             ctx.ran()
